@@ -193,15 +193,29 @@ fn server(end: End, reply: Option<Vec<u8>>, ident: String, script: Vec<Vec<Vec<u
 struct Cfg { nla: bool, ram: bool, blank: bool, auto: bool, check: bool, name: String, domain: String, user: String, pw: String, hash: Option<Vec<u8>> }
 
 fn run_connector(cfg: &Cfg, end: End) -> rdp::model::error::RdpResult<()> {
-    let mut connector = Connector::new()
-        .screen(800, 600)
-        .credentials(cfg.domain.clone(), cfg.user.clone(), cfg.pw.clone())
-        .set_restricted_admin_mode(cfg.ram)
-        .auto_logon(cfg.auto)
-        .blank_creds(cfg.blank)
-        .check_certificate(cfg.check)
-        .name(cfg.name.clone())
-        .use_nla(cfg.nla);
+    // both call orders of the (independent) builder setters are exercised: mode switches before the credentials when auto
+    // logon is requested, after them otherwise
+    let mut connector = if cfg.auto {
+        Connector::new()
+            .set_restricted_admin_mode(cfg.ram)
+            .auto_logon(cfg.auto)
+            .blank_creds(cfg.blank)
+            .check_certificate(cfg.check)
+            .use_nla(cfg.nla)
+            .name(cfg.name.clone())
+            .screen(800, 600)
+            .credentials(cfg.domain.clone(), cfg.user.clone(), cfg.pw.clone())
+    } else {
+        Connector::new()
+            .screen(800, 600)
+            .credentials(cfg.domain.clone(), cfg.user.clone(), cfg.pw.clone())
+            .set_restricted_admin_mode(cfg.ram)
+            .auto_logon(cfg.auto)
+            .blank_creds(cfg.blank)
+            .check_certificate(cfg.check)
+            .name(cfg.name.clone())
+            .use_nla(cfg.nla)
+    };
     if let Some(h) = &cfg.hash { connector = connector.set_password_hash(h.clone()); }
     connector.connect(end).map(|_client| ())
 }
